@@ -4,11 +4,13 @@ CONSTANTS
   N = 4
   Byz <- Byz3
   Nodes <- Obs1
-  Blk0 <- T4b
+  Blk0s <- ST4b
   MaxBlocks = 8
   MaxRestarts = 0
   ByzMode = "any"
   ByzRanges <- R123
+  Runs = FALSE
+  BadKinds <- OnlyOk
   Fixes <- AllFixes
 VIEW view
 PROPERTIES LibQuorum
